@@ -23,28 +23,10 @@ def handle (op : String) (j : Json) : Except String Json := do
     let file ← getNatList j "file"
     let k ← getNat j "k"
     let bad ← getNatList j "bad"      -- zero-based data lines that do not parse
-    let chunks := readAll (Fmt.kLine 1) true mode file k
-    -- rows of each chunk, flagged good/bad by their global line index
-    let (_, flagged) := chunks.foldl (fun (acc : Nat × List (List Bool)) c =>
-      let nl := countNL c
-      (acc.1 + nl, acc.2 ++ [(List.range nl).map (fun i => !(bad.contains (acc.1 + i)))])) (0, [])
     let cols ← getNatList j "cols"    -- column count of every data line
     let colcheck ← getBool j "colcheck"   -- false for formats with a variable column count (SAM)
-    let (_, colChunks) := chunks.foldl (fun (acc : Nat × List (List Nat)) c =>
-      let nl := countNL c
-      (acc.1 + nl, acc.2 ++ [(cols.drop acc.1).take nl])) (0, [])
-    -- column validation happens when the buffer is made, value parsing when its fields are read:
-    -- per chunk, a column error of that chunk precedes its parse error
-    let rec go (before : Nat) (cc : List (List Nat)) (ff : List (List Bool)) : Option Nat :=
-      match cc, ff with
-      | c :: cs, f :: fs =>
-        match (if colcheck then firstIrregular c else none) with
-        | some i => some (before + i)
-        | none => match firstBad id f with
-          | some i => some (before + i)
-          | none => go (before + c.length) cs fs
-      | _, _ => none
-    pure (reply (out (go 0 colChunks flagged)))
+    let flags := (List.range cols.length).map (fun i => !(bad.contains i))
+    pure (reply (out (readValidateDelim colcheck cols flags mode file k)))
   | "row_matrix" =>
     pure (reply (nat (rowOfOffsetMatrix (← getNat j "w") (← getNat j "offset"))))
   | "row_ragged" =>
